@@ -161,6 +161,8 @@ class SparkSQLModel(data_algebra.db_model.DBModel):
     Known issue: doesn't coalesce NaN
     """
 
+    string_backslash_escapes = True
+
     def __init__(self):
         data_algebra.db_model.DBModel.__init__(
             self,
